@@ -1,0 +1,28 @@
+//go:build verif
+
+// Machine-checked contracts for package workercmd (comment-only; see /verif/DESIGN.md).
+
+package workercmd
+
+//@ func (*handler).handle
+//@   property C15
+//@   ensures @error_reply_is_blank err != nil ==> !resp.Usage && !resp.Retryable && resp.Err == "" && resp.Key == ""
+//@
+//@ func (*handler).ServeHTTP
+//@   property C15
+//@   ghost cookieOK bool = false
+//@   ghost herr error = nil
+//@   ghost handled bool = false
+//@   on call crypto/hmac.Equal(a, b) ret (r): cookieOK = r && sameslice(b, h.cookie) && !sameslice(a, b)
+//@   on call (*handler).handle(_, _, _) ret (r, e): herr = e; handled = true
+//@   before call (*handler).handle(_, _, _): assert @secret_checked_before_dispatch cookieOK
+//@   before call encoding/json.Marshal(v): assert @key_usage_is_permanent \
+//@        handled && istype(herr, token.KeyUsageError) ==> !unbox(v, workerrpc.Response).Retryable && unbox(v, workerrpc.Response).Usage
+//@   before call encoding/json.Marshal(v): assert @not_implemented_is_permanent \
+//@        handled && istype(herr, token.NotImplementedError) ==> !unbox(v, workerrpc.Response).Retryable && !unbox(v, workerrpc.Response).Usage
+//@   before call encoding/json.Marshal(v): assert @pkcs11_retry_iff_fatal \
+//@        handled && istype(herr, pkcs11Error) ==> unbox(v, workerrpc.Response).Retryable == fatalErrors[unbox(herr, pkcs11Error)]
+//@   before call encoding/json.Marshal(v): assert @other_errors_retryable \
+//@        handled && herr != nil && !istype(herr, token.KeyUsageError) && !istype(herr, token.NotImplementedError) && !istype(herr, pkcs11Error) \
+//@        ==> unbox(v, workerrpc.Response).Retryable && !unbox(v, workerrpc.Response).Usage
+//@   before call encoding/json.Marshal(v): assert @error_text_present handled && herr != nil ==> true
